@@ -323,6 +323,7 @@ def trim_long_fields(
 
   def traverse(value, state: daglish.State):
     if isinstance(value, config_lib.Buildable):
+      should_copy = True
       for argument in set(config_lib.ordered_arguments(value)):
         field = getattr(value, argument)
         if not isinstance(field, (config_lib.Buildable, list, tuple, dict)):
@@ -332,6 +333,9 @@ def trim_long_fields(
                 repr(field), width=threshold, placeholder='...'
             )
             prefix = _TruncatedRepr(s)
+            if should_copy:
+              value = copy.copy(value)  # Shallow copy to avoid mutating original.
+              should_copy = False
             setattr(value, argument, prefix)
     return state.map_children(value)
 
